@@ -28,6 +28,10 @@ saturated, throwing, trapping, and also `undefined`).
                                         conversion (source exponent ≠ 0, dividing stages, narrow sources, portable path:
                                         `radixConvert` in general) are covered by the `sxr` correspondence lines and their
                                         stage-by-stage oracle only.
+* (`ccvt` / `wcvt cw` lines)             a `cnl::constant<V>` source of the tagged convert functor and of the
+                                        overflow_integer constructor is the conversion of a run-time value of type
+                                        `decltype(V)`: `convert_correct` / `wrapper_convert_correct` apply; that the
+                                        constant overload dispatches on `decltype(V)` is covered by correspondence only.
 * `builtin_arith_correct`               `+ - *` on the intrinsic path, **any** signedness and width mix.
 * `div_correct`                         `/` on both paths, operands of one signedness, divisor ≠ 0.
 * `shl_correct`                         `<<` on both paths, every count ≥ 0 (no excluded class since the
